@@ -256,6 +256,11 @@ def run(ctx: core.Ctx) -> None:
     ]
     ctx.trusted += ["TLC 2026.09", "numpy array byte equality", "projection bbv/drivers/reservoir.py"]
     # deviations must be refuted (non-vacuity of C10_Fresh)
+    # histories of ANY length: under the abstract view the state space is finite (59 / 17 states); the state-based form
+    # of the property (ObsCurrent, CacheIsCurrent) holds in all of them, and the KeepsCache deviation is refuted there too
+    ctx.model_check("Reservoir", "MC_Reservoir_unbounded_single.cfg", workers=2)
+    ctx.model_check("Reservoir", "MC_Reservoir_unbounded_ideal.cfg", workers=2)
+    ctx.expect_refuted("Reservoir", "MC_Reservoir_unbounded_dev.cfg", "ObsCurrent", workers=2)
     ctx.expect_refuted("Reservoir", "MC_Reservoir_dev_KeepsCache.cfg", "C10_Fresh", workers=4)
     ctx.expect_refuted("Reservoir", "MC_Reservoir_dev_ClobbersPf.cfg", "C10_Fresh", workers=4)
     variants = [0, 3] if ctx.quick else [0, 1, 2, 3, 4, 5, 6]   # 3: int64 time grids; 2, 6: float32
